@@ -73,6 +73,7 @@ pub const QUERIES: &[(&str, u32)] = &[
     ("cwd", 1),
     ("root", 1),
     ("entries", 3),
+    ("config_dir", 1),
 ];
 
 pub const HANDLES: &[(&str, u32)] = &[
@@ -595,6 +596,7 @@ impl Gen {
                     _ => Op::AllFiles { p },
                 }
             },
+            "config_dir" => Op::ConfigDir { name: self.name(rng) },
             "cwd" => Op::Cwd,
             "root" => Op::Root,
             "entries" => {
@@ -602,6 +604,12 @@ impl Gen {
                 Op::Entries { p: self.arg(p, m, rng), o: self.ent_opts(rng) }
             },
             "mkdir_p" => {
+                if rng.chance(1, 30) {
+                    // the places config_dir() searches
+                    let home = m.env.get("HOME").cloned().unwrap_or_else(|| "/".into());
+                    let base = if rng.chance(1, 2) { "/etc/xdg".to_string() } else { crate::refpath::mash(&home, ".config") };
+                    return Op::MkdirP { p: join(&base, &self.name(rng)) };
+                }
                 let p = self.p_create(m, rng);
                 Op::MkdirP { p: self.arg(p, m, rng) }
             },
